@@ -115,6 +115,44 @@ KeyRejectDup(k, via) ==
   /\ Log(IF via = "keyvalue" THEN "KeyAssignString" ELSE "KeyAssignNode", 0, k, Nil, "",
          "repeated_key")
 
+(* ---- A deviation, named.  A map whose key assembler is the key TYPE's own assembler (the generated typed   *)
+(* maps: the arrangement that serves complex keys) cannot notice a repeated key when it is supplied.  The     *)
+(* next call on the map assembler, AssembleValue, notices: it drops the entry that was begun, is back to      *)
+(* 'expect key or finish', and hands out an assembler that refuses whatever is done with it with the          *)
+(* repeated-key error.  The property allows a refusal later than the key ("or at finish for complex keys");   *)
+(* what it does not allow is that the key is never refused or that the refusal leaves a trace.  These three   *)
+(* actions are NOT part of Next: the typed machine enables them, and each emitted behaviour says which style  *)
+(* of refusal it contains so that every engine is held to its own.                                            *)
+KeyAssignDupUnnoticed(k, via) ==
+  /\ pc = "building" /\ Top.kind = "map" /\ Top.st = "midKey"
+  /\ via \in Routes \ {"entry"}
+  /\ k \in Range(Top.ks)
+  /\ rejects < MaxRejects
+  /\ stack' = SetTop([Top EXCEPT !.st = "expectValueDup", !.pk = k])
+  /\ UNCHANGED <<pc, cur, results, nodes, rejects, resets>>
+  /\ Log(IF via = "keyvalue" THEN "KeyAssignString" ELSE "KeyAssignNode", 0, k, Nil, "", "ok")
+
+AssembleValueDup ==
+  /\ pc = "building" /\ Top.kind = "map" /\ Top.st = "expectValueDup"
+  /\ stack' = SetTop([Top EXCEPT !.st = "midValueDup"])
+  /\ UNCHANGED <<pc, cur, results, nodes, rejects, resets>>
+  /\ Log("AssembleValue", 0, <<>>, Nil, "", "ok")
+
+\* whatever is done with the assembler that was handed out: refused, and nothing of the entry remains
+RefusedDup(a, v, impl) ==
+  /\ pc = "building" /\ Top.kind = "map" /\ Top.st = "midValueDup"
+  /\ stack' = SetTop([Top EXCEPT !.st = "initial", !.pk = <<>>])
+  /\ rejects' = rejects + 1
+  /\ UNCHANGED <<pc, cur, results, nodes, resets>>
+  /\ Log(a, 0, <<>>, v, impl, "repeated_key")
+
+DeferredDupNext ==
+  \/ \E k \in Keys, via \in {"keyvalue", "keynode"} : KeyAssignDupUnnoticed(k, via)
+  \/ AssembleValueDup
+  \/ \E s \in Scalars : RefusedDup("AssignScalar", s, "")
+  \/ \E p \in Prebuilt : RefusedDup("AssignNode", p.v, p.impl)
+  \/ \E kind \in RecursiveKinds : RefusedDup(IF kind = "map" THEN "BeginMap" ELSE "BeginList", Nil, "")
+
 (* key assembler: a non-string kind -- rejected by that call; nothing further is pinned down *)
 KeyWrongKind(s) ==
   /\ pc = "building" /\ Top.kind = "map" /\ Top.st = "midKey"
@@ -239,7 +277,7 @@ Spec == Init /\ [][Next]_vars
 
 FrameOK(f) ==
   /\ f.kind \in RecursiveKinds
-  /\ f.st \in {"initial", "midKey", "expectValue", "midValue"}
+  /\ f.st \in {"initial", "midKey", "expectValue", "midValue", "expectValueDup", "midValueDup"}
   /\ f.kind = "list" => f.st \in {"initial", "midValue"} /\ f.ks = <<>>
   /\ f.kind = "map" => Len(f.ks) = Len(f.vs)
   /\ \A i \in DOMAIN f.vs : WellFormed(f.vs[i])
@@ -290,6 +328,8 @@ DropRejectedKeys(h) ==
   IF h = <<>> THEN <<>>
   ELSE IF h[1].a = "AssembleKey" /\ Len(h) >= 2 /\ h[2].r # "ok"
     THEN DropRejectedKeys(SubSeq(h, 3, Len(h)))
+  ELSE IF h[1].a = "AssembleKey" /\ Len(h) >= 4 /\ h[4].r = "repeated_key"      \* refused late (DeferredDupNext)
+    THEN DropRejectedKeys(SubSeq(h, 5, Len(h)))
   ELSE IF h[1].r # "ok" THEN DropRejectedKeys(Tail(h))
   ELSE <<h[1]>> \o DropRejectedKeys(Tail(h))
 
